@@ -1714,3 +1714,105 @@ def maximization_youngest_parent(g, fname="discrete.BeliefPropagation.outside_ma
         why = "" if ok_use else f"slices after the edge loop: {slices}; argmax statement: {argmax}"
     g.ob(f"{fname}:argmax-restricted-to-youngest-parent", ok_use,
          "maximized_node_times[child] = argmax over [: youngest_par_index + 1] of result x inside", why)
+
+
+# ---------------------------------------------------------------------------------------------
+def arguments_not_modified(g, fnames=("demography.PopulationSizeHistory.__init__",)):
+    """C09 (a repeated call with the same arguments gives the same result) needs the frame condition that the option
+    objects handed to the API are not written to.  May-alias analysis over the real AST of the constructor every
+    population-size option flows through: a value MAY ALIAS a parameter if it is the parameter, a view of a
+    may-alias value (np.asarray / asanyarray / atleast_nd / ravel / reshape / view / squeeze / transpose / .T / a
+    slice), or a name / attribute bound to one; np.array (copy), .copy(), .flatten(), arithmetic and np.append give
+    fresh values.  Obligation: no augmented assignment, item store or in-place method on a may-alias value."""
+    VIEW_FUNCS = {"np.asarray", "np.asanyarray", "np.atleast_1d", "np.atleast_2d", "np.ravel", "np.reshape",
+                  "np.squeeze", "np.transpose", "np.ascontiguousarray", "np.asfarray"}
+    VIEW_METHODS = {"ravel", "reshape", "view", "squeeze", "transpose", "swapaxes", "astype"}
+    INPLACE_METHODS = {"sort", "fill", "put", "resize", "partition", "itemset", "setfield", "byteswap"}
+    for fname in fnames:
+        try:
+            fn = extract.get_function(fname)
+        except LookupError as e:
+            g.ob(f"{fname}:attach", False, "function exists", str(e), verdict="does-not-attach")
+            continue
+        params = {a.arg for a in fn.node.args.args + fn.node.args.kwonlyargs} - {"self"}
+        alias = {p: True for p in params}
+        offences = []
+
+        def may(e):
+            if isinstance(e, ast.Name):
+                return alias.get(e.id, False)
+            if isinstance(e, ast.Attribute):
+                if e.attr == "T":
+                    return may(e.value)
+                return alias.get(ast.unparse(e), False)
+            if isinstance(e, ast.Subscript):
+                return may(e.value) and (isinstance(e.slice, ast.Slice) or isinstance(e.slice, ast.Tuple))
+            if isinstance(e, ast.Call):
+                f = ast.unparse(e.func)
+                if f in VIEW_FUNCS and e.args:
+                    return may(e.args[0])
+                if f == "np.array" and e.args:
+                    copy_kw = [k for k in e.keywords if k.arg == "copy"]
+                    return may(e.args[0]) and bool(copy_kw) and ast.unparse(copy_kw[0].value) in ("False", "None")
+                if isinstance(e.func, ast.Attribute) and e.func.attr in VIEW_METHODS:
+                    if e.func.attr == "astype" and not any(k.arg == "copy" and ast.unparse(k.value) == "False" for k in e.keywords):
+                        return False
+                    return may(e.func.value)
+                return False
+            if isinstance(e, ast.IfExp):
+                return may(e.body) or may(e.orelse)
+            return False
+        # flow-sensitive may-analysis: `reach` maps each name / attribute to whether the binding that reaches the
+        # current statement may alias an argument (branches are joined with `or`)
+        reach = dict.fromkeys(params, True)
+
+        def walk(stmts, reach):
+            for st in stmts:
+                if isinstance(st, ast.Assign):
+                    v = may_reach(st.value, reach)
+                    for t in st.targets:
+                        if isinstance(t, (ast.Name, ast.Attribute)):
+                            reach[t.id if isinstance(t, ast.Name) else ast.unparse(t)] = v
+                        elif isinstance(t, ast.Subscript) and may_reach(t.value, reach):
+                            offences.append((st.lineno, f"item store into {ast.unparse(t.value)}, which may be the caller's object"))
+                elif isinstance(st, ast.AugAssign):
+                    tgt = st.target.value if isinstance(st.target, ast.Subscript) else st.target
+                    if may_reach(tgt, reach):
+                        offences.append((st.lineno, f"in-place `{ast.unparse(st)}` on a value that may be the caller's object"))
+                elif isinstance(st, ast.Expr) and isinstance(st.value, ast.Call) and isinstance(st.value.func, ast.Attribute) \
+                        and st.value.func.attr in INPLACE_METHODS and may_reach(st.value.func.value, reach):
+                    offences.append((st.lineno, f"in-place method `{ast.unparse(st.value)}` on a value that may be the caller's object"))
+                elif isinstance(st, ast.If):
+                    r1, r2 = dict(reach), dict(reach)
+                    walk(st.body, r1)
+                    walk(st.orelse, r2)
+                    for k in set(r1) | set(r2):
+                        reach[k] = r1.get(k, False) or r2.get(k, False)
+                elif isinstance(st, (ast.For, ast.While, ast.With)):
+                    walk(st.body, reach)
+                    walk(getattr(st, "orelse", []), reach)
+                elif isinstance(st, ast.Try):
+                    r0 = dict(reach)
+                    walk(st.body, reach)
+                    for h in st.handlers:
+                        rh = dict(r0)
+                        walk(h.body, rh)
+                        for k in rh:
+                            reach[k] = reach.get(k, False) or rh[k]
+                    walk(st.orelse, reach)
+                    walk(st.finalbody, reach)
+
+        def may_reach(e, reach):
+            saved = dict(alias)
+            alias.clear()
+            alias.update(reach)
+            try:
+                return may(e)
+            finally:
+                alias.clear()
+                alias.update(saved)
+        walk(fn.node.body, reach)
+        g.ob(f"{fname}:arguments-not-modified", not offences,
+             f"assigns nothing reachable from the parameters {sorted(params)}: no in-place operation on a value that may "
+             "alias an argument (np.asarray / ravel / reshape / slices are views; np.array, copy, flatten, arithmetic are fresh)",
+             "; ".join(f"line {ln}: {why}" for ln, why in offences))
